@@ -619,6 +619,15 @@ func (p *Parser) ParsingIter() iter.Seq[*ParserReply] {
 		const depth0 int = 0
 		for {
 			expr, err = p.ParseExpression(depth0)
+			if err == nil && expr == SexpEnd && p.lexer.inStringOrRune() {
+				// the input so far ends inside a string or char
+				// literal: an unfinished text, not an empty one.
+				p.sendMe.Err = ErrMoreInputNeeded
+				if yield(p.sendMe) {
+					continue
+				}
+				return
+			}
 			if err != nil || expr == SexpEnd {
 				p.sendMe.Err = err
 				yield(p.sendMe)
